@@ -44,8 +44,22 @@ def _worker(job):
                 "contracts_used": sorted(sess.used_contracts), "lib_used": sorted(sess.used_lib),
                 "samples": samples, "notes": u.notes, "error": None}
     except Exception as e:   # checker error (exit 3), never a violation
+        obs = []
+        try:
+            from pyvc import solve as _solve
+            for ob in getattr(e, "partial", []) or []:
+                if ob.status is None:
+                    _solve.check(ob, second=False)
+                rec = {"name": ob.name, "props": list(ob.props), "status": ob.status, "time": round(ob.time, 4),
+                       "backend": ob.backend, "path": ob.path, "where": ob.where}
+                if ob.status == "sat":
+                    rec["model"] = _solve.model_dict(ob.model)
+                    obs.append(rec)          # only refutations survive a unit that could not be completed
+        except Exception:  # noqa
+            obs = []
         return {"unit": unit, "title": unit, "kind": "error", "functions": [], "paths": 0, "live_paths": 0,
-                "time": round(time.time() - t0, 3), "obligations": [], "noops": [], "inlined": [], "interpreted": [],
+                "time": round(time.time() - t0, 3), "obligations": obs, "noops": [], "inlined": [],
+                "interpreted": sorted(getattr(e, "interpreted", ())),
                 "contracts_used": [], "lib_used": [], "samples": [], "notes": [],
                 "error": "%s: %s\n%s" % (type(e).__name__, e, traceback.format_exc(limit=8))}
 
